@@ -1584,7 +1584,9 @@ class CompiledType(compiler.CompiledType):
 def get_tag_no_encoding(member):
     value = (member.tag[0] & ~Encoding.CONSTRUCTED)
 
-    return bytearray([value]) + member.tag[1:]
+    # A tag number with more octets is bigger than any tag number with
+    # fewer octets.
+    return (value, len(member.tag), bytes(member.tag[1:]))
 
 
 class Compiler(compiler.Compiler):
